@@ -151,21 +151,18 @@ def r3_space_shifts(ctx):
         ctx.check(ok and ob.parents in pairs, "C10.R3", where, None, f"{g.cfg.name}: orthonormal_basis = compute_orthonormal_basis{ob.parents}",
                   f"{g.cfg.name}: orthonormal_basis = {desc('orthonormal_basis')}{ob.parents}, not the Householder basis of the model's (velocity, metric) pair", construct="orthonormal_basis", instance=g.cfg.name)
     f = ctx.ix.func("leaspy.utils.linalg", "compute_orthonormal_basis", "C10.R3")
-    src = U(f.node)
-    checks = [
-        ("dgamma_t0 = G_metric * dgamma_t0", "velocity mapped through the (diagonal) metric"),
-        ("dgamma_t0 = G_metric @ dgamma_t0", "velocity mapped through the (full) metric"),
-        ("alpha = -torch.sign(dgamma_t0[strip_col]) * torch.norm(dgamma_t0)", "reflection target alpha = -sign(d_j) |d|"),
-        ("u_vector = dgamma_t0 - alpha * ej", "u = d - alpha e_j"),
-        ("v_vector = u_vector / torch.norm(u_vector)", "normalised reflection vector"),
-        ("q_matrix = torch.eye(dimension) - 2 * v_vector.view(-1, 1) * v_vector", "Q = I - 2 v v^T"),
-        ("return torch.cat((q_matrix[:, :strip_col], q_matrix[:, strip_col + 1:]), dim=1)", "the column collinear to G*v is stripped"),
-        ("ej[strip_col] = 1.0", "e_j is the stripped basis vector"),
-    ]
-    for needle, what in checks:
-        # the semantic content (scale invariance of the basis, hence gauge invariance of the space shifts) is decided by R2, which
-        # interprets this function; here only the confirmed shape is recorded: another shape is `unknown`, not a violation
-        ctx.anchor(needle in src, "C10.R3", f, f.node, what, f"`{needle}`", construct=what)
+    from ..astq import Canon, unify
+    L = Canon(f.node).lines(False, True)
+    # the semantic content (scale invariance of the basis, hence gauge invariance of the space shifts) is decided by R2, which
+    # interprets this function; here only the confirmed shape is recorded: another shape is `unknown`, not a violation
+    hh = unify(L, ["?e = torch.zeros_like($0)", "?e[$k0] = 1.0", "?alpha = -torch.sign($0[$k0]) * torch.norm($0)", "?u = $0 - ?alpha * ?e", "?v = ?u / torch.norm(?u)",
+                   "?q = torch.eye(?dim) - 2 * ?v.view(-1, 1) * ?v", "return torch.cat((?q[:, :$k0], ?q[:, $k0 + 1:]), dim=1)"])
+    in_order = hh is not None and all(hh[f"#{i}"] < hh[f"#{i + 1}"] for i in range(6))
+    whats = ["e_j is the stripped basis vector", "reflection target alpha = -sign(d_j) |d|", "u = d - alpha e_j", "normalised reflection vector", "Q = I - 2 v v^T", "the column collinear to G*v is stripped"]
+    for what in whats:
+        ctx.anchor(in_order, "C10.R3", f, f.node, what, "Householder reflection e_j, alpha, u, v, Q, stripped column", construct=what)
+    for needle, what in (("$0 = $1 * $0", "velocity mapped through the (diagonal) metric"), ("$0 = $1 @ $0", "velocity mapped through the (full) metric")):
+        ctx.anchor(needle in L, "C10.R3", f, f.node, what, f"`{needle}`", construct=what)
 
 
 def rules(ctx):
